@@ -86,6 +86,26 @@ ob("O-C20-seconds", ["C20", "C05"], S, "c20_array_seconds", "array_to_datetime, 
    inlang={"filter": "[2000,0,1,0,0,$a]|mktime", "doc": "a = the seconds value of the counterexample"})
 ob("O-C11-once", ["C11"], S, "c11_once_or_empty", "once_or_empty: Ok(Some x) -> [Ok x], Ok(None) -> [], Err e -> [Err e]", [STD + "once_or_empty"], kind="contract")
 
+# ------------------------------------------------------------------------------------ jaq-core
+CORE = "jaq-core/src/"
+ob("O-C15-table", ["C15"], C, "c15_precedence_table", "for every pair of binary operators (| , as-binding, the assignment forms with all five arithmetic operators and //=, //, or, and, six comparisons, five arithmetic operators): precedence is order-isomorphic to the manual's table and associativity is Right exactly for |, `as $x |` and the assignments", [CORE + "load/parse.rs::BinaryOp::precedence", CORE + "load/parse.rs::BinaryOp::associativity"])
+ob("O-C16-vars", ["C16", "C01"], C, "c16_var_numbering", "Compiler::var with no live local binder: the returned index selects, in the run-time list Vars::new(globals ++ imported values), the last data import of that name owned by the current module, else the last command-line variable of that name; an undefined name is reported, never mis-indexed", [CORE + "compile.rs::Compiler::var"], label="bounded", bound="2 data imports x 2 owning modules, 2 global variables, names from a 2-letter alphabet, current module 0 or 1 (all symbolic)")
+ob("O-C01-binds", ["C01"], C, "c01_binds", "binds(sig, args) pairs the i-th signature kind (variable / filter) with the i-th argument id, in order", [CORE + "compile.rs::binds"], label="bounded", bound="<= 3 arguments, kinds and ids symbolic")
+ob("O-C03-peek", ["C03"], C, "c03_next_if_one", "next_if_one returns an element only under size_hint upper bound Some(1); pulls nothing when it declines because of the hint; never pulls an element it does not return (ghost pull counter on the upstream iterator)", [CORE + "box_iter.rs::next_if_one"], label="bounded", bound="upstream streams of length <= 3, every honest size hint")
+ob("O-C03-map", ["C03"], C, "c03_map_with", "map_with: output k is r(l_k, x); delivering it has pulled upstream at most k+1 times (+1 look-ahead only under hint Some(1)) and run r exactly k+1 times", [CORE + "box_iter.rs::map_with", CORE + "box_iter.rs::next_if_one"], label="bounded", bound="upstream streams of length <= 3, every honest size hint")
+ob("O-C03-flatmap", ["C03"], C, "c03_flat_map_then", "flat_map_then / then: all outputs of upstream element k are delivered before the right-hand side runs for element k+1; an upstream error is passed through in place", [CORE + "box_iter.rs::flat_map_then", CORE + "box_iter.rs::then"], label="bounded", bound="upstream streams of length <= 3 with an error at any position, two outputs per element")
+ob("O-C03-then", ["C03"], C, "c03_then", "then: an Err is yielded as the single item and the continuation does not run; an Ok runs it once", [CORE + "box_iter.rs::then"])
+ob("O-C03-once", ["C03"], C, "c03_collect_if_once", "collect_if_once: the generator runs once; at most one element is taken eagerly and only under hint Some(1); otherwise the stream is recreated lazily and yields every element", [CORE + "into_iter.rs::collect_if_once"], label="bounded", bound="streams of length <= 3, every honest size hint")
+ob("O-C03-lazy", ["C03"], C, "c03_lazy", "filter::lazy(f): f does not run before the first next(), and runs exactly once", [CORE + "filter.rs::lazy"], label="bounded", bound="streams of length <= 3")
+ob("O-C04-stack-break", ["C04", "C03"], C, "c04_stack_break", "Stack::next (Break callback): yields the next element of the topmost non-empty iterator, pops only iterators above it, and does not keep an iterator whose size_hint says exhausted", [CORE + "stack.rs::Stack::next"], label="bounded", bound="two iterators of length <= 2")
+ob("O-C04-stack-tail", ["C04"], C, "c04_stack_tailcall_height", "Stack::next on a chain of tail calls (every stream yields exactly one Continue item): each exhausted caller is dropped before its callee is pushed, so the height stays <= 1", [CORE + "stack.rs::Stack::next"], label="bounded", bound="a chain of 3 tail calls")
+ob("O-C04-stack-growth", ["C04"], C, "c04_stack_growth", "Stack::next growth bound: height after <= height before + number of Continue answers; a one-element stream is gone once it has yielded", [CORE + "stack.rs::Stack::next"], label="bounded", bound="bottom stream of length <= 2, up to 2 Continue answers chosen symbolically")
+ob("O-C02-opt", ["C02"], C, "c02_opt_fail", "Opt::fail: Optional -> Ok(x) without running f, Essential -> Err(f(x))", [CORE + "path.rs::Opt::fail"], kind="contract")
+
+OBS.append(dict(id="O-C01-env", properties=["C01"], backend="verus", spec="verus/rc_list.spec.json", kind="verus", label="complete", tier="quick",
+    statement="the run-time environment list (Vars / Ctx): with view(): Seq<T>, new()@ = [], l.cons(x)@ = [x] + l@, l.skip(n)@ = l@.skip(min(n, |l@|)), l.head() = first element or None, l.get(n) = Some(l@[n]) iff n < |l@| - index i means the i-th most recent binding, for lists of any length (unbounded: loop invariant + Z3)",
+    functions=["jaq-core/src/rc_list.rs::List::new", "jaq-core/src/rc_list.rs::List::cons", "jaq-core/src/rc_list.rs::List::head", "jaq-core/src/rc_list.rs::List::get", "jaq-core/src/rc_list.rs::List::skip"]))
+
 CFG = {
     "trusted_base": [
         "Kani 0.68.0 (MIR->GOTO translation of the pinned nightly's core/alloc)",
@@ -128,6 +148,31 @@ CFG = {
             "explanation": "The conversions jaq owns around jiff, as trait-contract instances over the abstract value type, with jiff's constructors/accessors replaced by ghost-recording stubs: what is passed to Timestamp::from_microsecond / from_second / DateTime::new is the exact mathematical value for every machine integer and every float, or an error / None is returned. Loop-free; complete.",
             "not_decided": "agreement with the proleptic Gregorian calendar, datetime_to_array's field extraction, weekday / day-of-year, strftime / strptime inverse, RFC 3339 parsing, the year range (all inside jiff); microsecond exactness of f * 10^6 beyond what IEEE gives",
             "assumptions": ["jiff's constructors and accessors are replaced by ghost-recording stubs (jiff itself is not verified)", "alloc::fmt::format (error-message rendering) is replaced by a constant"],
+        },
+        "C15": {
+            "level": "proof",
+            "explanation": "The operator table is finite: BinaryOp::precedence / associativity are compared with the manual's table for every pair of operators (all enum payloads symbolic). Complete for the table.",
+            "not_decided": "that the precedence-climbing loop (prec_climb::climb1) builds the tree the table implies (bounded unwinding is exponential in its recursion; no inductive contract within reach of the installed tools), atoms, postfix ? vs prefix -, path suffixes, object-entry and pattern shorthands, elif / missing else, string interpolation, def f($x): parser and compiler desugaring",
+        },
+        "C16": {
+            "level": "other",
+            "explanation": "The index arithmetic that decides which binding a module-level `$x` denotes: the real Compiler::var on a symbolic table of data imports (with owning modules) and command-line variables, compared with a lookup in the run-time variable list as Ctx::new builds it. Bounded (2 imports x 2 modules x 2 globals, all symbolic), unwinding assertions on.",
+            "not_decided": "loader graph sharing and cycle detection, search-path resolution, include-vs-import visibility of definitions (call_mod_id), live local binders (BTreeMap-based Locals: did not fit CBMC), equality with the inlined program",
+        },
+        "C03": {
+            "level": "other",
+            "explanation": "Laziness as a frame condition: the upstream iterator carries a ghost pull counter and the right-hand side closure a ghost call counter; the real combinators under Id::run (next_if_one, map_with, flat_map_then, then, collect_if_once, lazy, Stack::next) are proved to pull / run only what the delivered prefix needs. Bounded (streams <= 3, all honest size hints), unwinding assertions on.",
+            "not_decided": "that each Id::run arm uses these combinators lazily, first / limit / skip / label / try-catch (closures over the interpreter context), rc_lazy_list memoisation, fold, inputs, the CLI loop, termination on infinite generators",
+        },
+        "C04": {
+            "level": "other",
+            "explanation": "The trampoline's stack discipline: Stack::next drops an exhausted caller before pushing its callee, so a chain of tail calls keeps the height <= 1; growth bound per next(). Bounded.",
+            "not_decided": "the resource claim itself (native stack depth and live heap for any N), which sub-terms Compiler::term lets inherit tail-call permission (Locals::call: BTreeSet/BTreeMap did not fit CBMC), fold's empty-output branch, heap retention, iterative Drop of rc_lazy_list",
+        },
+        "C01": {
+            "level": "other",
+            "explanation": "Nearest-binding lookup rests on two index calculations: the run-time environment list (rc_list: Verus, unbounded, see O-C01-env) and the compile-time numbering (Compiler::var for imported / global variables, binds for arguments: Kani, bounded). Paper lemma (not machine-checked): var numbering + list semantics + 'every cons_* prepends exactly one binding' => a variable denotes its lexically nearest binding.",
+            "not_decided": "evaluation order of compound filters (cartesian, pipe, ObjSingle, Path::combinations), bind_vars / bind_pat ordering, closures capturing the right Ctx, tail calls being invisible, live local binders in Compiler::var (BTreeMap), anything about outputs of actual programs",
         },
     },
     "obligations": OBS,
